@@ -67,7 +67,7 @@ def dict_key_sites(fn: Func, dname: str) -> List[Tuple[ast.AST, ast.AST]]:
     return out
 
 
-LATER_RULES = " Later rules: (R18.7) module is absolute only at level 0; (R18.8) __import__('a.b') returns a; (R18.9) import a.b is used whenever a is; (R18.10) = C05 R5.5 for the tracing module; (R18.11) duplicates = same module, name and statement list; (R18.12) imports under try are never moved; (R18.15) a star import is removed as unused only when its export list can be determined, by a predicate that gives up wherever trace_origin does; (R18.16) import statements are reordered only after a test on the names they bind (known finding); (R18.17) imports inserted at module level replace module-level imports only."
+LATER_RULES = " Later rules: (R18.7) module is absolute only at level 0; (R18.8) __import__('a.b') returns a; (R18.9) import a.b is used whenever a is; (R18.10) = C05 R5.5 for the tracing module; (R18.11) duplicates = same module, name and statement list; (R18.12) imports under try are never moved; (R18.15) a star import is removed as unused only when its export list can be determined, by a predicate that gives up wherever trace_origin does; (R18.16) import statements are reordered only after a test on the names they bind (known finding); (R18.17) imports inserted at module level replace module-level imports only. (R18.18) one key form for all tests against the standard-library table in a function. (R18.19) trace_origin answers an origin only after a census of the module-level stores of the name (binder kinds it does not read)."
 
 
 def check(prog: Program, tier: str) -> Result:
@@ -181,7 +181,8 @@ def check(prog: Program, tier: str) -> Result:
                          "(another working directory, an edited or moved module), so star-imports are expanded to names the module no longer exports")
     _r18_18(prog, res)
     _r18_13_census(prog, res)
-    res.floors.update({"R18.1": 6, "R18.2": 2, "R18.4": 1, "R18.5": 1, "R18.10": 3, "R18.11": 2, "R18.12": 1, "R18.13": 4, "R18.14": 2, "R18.15": 4, "R18.16": 1, "R18.17": 2, "R18.18": 1})
+    _r18_19(prog, res)
+    res.floors.update({"R18.1": 6, "R18.2": 2, "R18.4": 1, "R18.5": 1, "R18.10": 3, "R18.11": 2, "R18.12": 1, "R18.13": 4, "R18.14": 2, "R18.15": 4, "R18.16": 1, "R18.17": 2, "R18.18": 1, "R18.19": 1})
     res.analysed["importfrom_constructions"] = n
     return res
 
@@ -671,6 +672,44 @@ def _r18_13_census(prog: Program, res: Result) -> None:
                    "the predicate says `can tell` for a module whose __all__ is built with += or from other values: the star import is removed although names it binds were not seen")
 
 
+# ------------------------------------------------------------------------------------------------ R18.19
+TRACE_READ_KINDS = {"Import", "ImportFrom", "FunctionDef", "AsyncFunctionDef", "ClassDef", "Assign", "AnnAssign", "NamedExpr"}
+
+
+def _r18_19(prog: Program, res: Result) -> None:
+    """trace_origin answers "this is where the name gets its value" from the LAST node that binds it among the kinds it reads
+    (import, def, class, =, annotated =, :=).  A name is also bound by `x += 1`, `for x in ..`, `with .. as x`, `except .. as x`,
+    `del x`, match captures: where one of those follows, the answer names a binding that no longer holds, and a client's import
+    is redirected to the module in which the name had an EARLIER value.  Obligation: every positive answer is given only after
+    a census of the module-level stores of the name came out equal to the stores inside the kinds that are read (a repository
+    predicate that counts `ast.Store` contexts, negative on the path)."""
+    from ..pathcond import PathAnalysis, plain
+    tr = prog.func("tracing", "trace_origin")
+    census = [f for f in prog.funcs.values() if f.mod.name == "tracing" and "ast.Store" in norm(f.node) and len(f.posparams) == 2
+              and any(isinstance(c, ast.Compare) and isinstance(c.ops[0], (ast.NotEq, ast.Eq)) for r in walk_own(f.node) if isinstance(r, ast.Return) and r.value is not None for c in ast.walk(r.value))]
+    names = {f.node.name for f in census}
+    for f in census:
+        counted = {k for k in ("AugAssign", "For", "With", "ExceptHandler", "MatchAs") if f"ast.{k}" in norm(f.node)}
+        generic = "ast.Store" in norm(f.node) and "ast.Del" in norm(f.node)
+        res.decide(generic, "R18.19", f.loc(), f.fq, f"{f.node.name}() # census of the stores of a name",
+                   "counts every Store / Del of the name, whatever statement it stands in" if generic else f"counts stores by statement kind only ({sorted(counted)})")
+    positives = [r for r in walk_own(tr.node) if isinstance(r, ast.Return) and isinstance(r.value, ast.Call) and norm(r.value.func).endswith("_TraceResult")]
+    if not positives:
+        res.undecided("R18.19", tr.loc(), tr.fq, "positive answers of trace_origin", "none found")
+        return
+    pa = PathAnalysis(prog, tr)
+    bad = None
+    for r in positives:
+        worlds = pa.worlds_at(r)
+        ok = bool(names) and bool(worlds) and all(any(f[0] == "lit" and not f[2] and any(plain(f[1]).startswith(n_ + "(") for n_ in names) for f in w.facts) for w in worlds)
+        if not ok:
+            bad = bad or r
+    res.decide(bad is None, "R18.19", tr.loc(bad) if bad is not None else tr.loc(positives[0]), tr.fq, f"{len(positives)} positive answers of trace_origin # binder kinds that are not read",
+               "given only when every module-level store of the name is in a statement kind that is read" if bad is None else
+               "an origin is answered from the kinds of binding that are read (" + ", ".join(sorted(TRACE_READ_KINDS)) + ") without asking whether the name is bound in another way "
+               "afterwards: `from core import x` followed by `x += 1` (or `for x in ..`) is traced to core, and a client's `from mid import x` is redirected to `from core import x`")
+
+
 # ------------------------------------------------------------------------------------------------ R18.18
 def _r18_18(prog: Program, res: Result) -> None:
     """Contradiction rule for the standard-library table.  A function that asks `X in constants.PYTHON_311_STDLIB` more than once
@@ -1099,6 +1138,7 @@ def _r18_6(prog: Program, res: Result) -> None:
 from ..selftest import Variant  # noqa: E402
 
 VARIANTS = [
+    Variant("origin-answered-without-the-census-of-stores", "FIRE", "tracing", "    if _is_bound_in_a_way_that_is_not_read(name, root):\n        return None  # x += 1, for x in ..: where its value comes from cannot be said\n\n", "", "R18.19"),
     Variant("export-model-answers-without-the-census", "FIRE", "tracing", "        if _export_list_is_opaque(root):\n            return None  # Neither \"exported\" nor \"not exported\" can be said of any name\n\n", "", "R18.13"),
     Variant("star-import-predicate-without-the-census", "FIRE", "tracing", "    return _export_list_is_opaque(origin_root)\n", "    return False\n", "R18.13"),
     Variant("imports-hoisted-over-imports-of-the-same-name", "FIRE", "fixes", "    ambiguous_names = _names_imported_from_several_origins(root)\n    imports_movable_to_toplevel = {\n        node\n        for node in imports_movable_to_toplevel\n        if ambiguous_names.isdisjoint(\n            (alias.asname or alias.name).split(\".\")[0] for alias in node.names\n        )\n    }\n", "", "R18.14"),
